@@ -118,6 +118,12 @@ REG.contract('C19', U, 'version_check_to_range',
              note='Version abstracted as an element of a total preorder (lemmas L19.*); start is not modified (Range is used immutably)')
 REG.contract('C19', U, 'version_compare_condition_with_min',
              params={'condition': RangeS, 'minimum': Str},
-             ensures=['implies(result, forall(Elem, lambda e: implies(mem(condition, e), e >= ver(minimum))))'],
-             abstract_classes=ABS_VERSION, floor=2,
+             ensures=['implies(result, forall(Elem, lambda e: implies(mem(condition, e), e >= ver(minimum))))',
+                      # vacuous truth: no version lies in an empty range, so all of them are new enough (code that can never run
+                      # must not draw a FeatureNew warning)
+                      'implies(condition.is_empty, result)',
+                      # a range without lower bound that is not empty contains arbitrarily old versions
+                      'implies(not condition.is_empty and condition.min is None, not result)'],
+             requires=['implies(condition.is_empty, condition.min is None and condition.max is None)'],
+             abstract_classes=ABS_VERSION, floor=4,
              note='True only if every version satisfying the condition is at least the minimum')
